@@ -235,6 +235,9 @@ def replay_progs(ctx: Ctx, prop: str, clauses: set[str], kind=None) -> int:
     """TLC-enumerated test cases through the real assertion generation, `generator._minimize` (every
     strategy and direction) and export; PipelineTrace clauses on what comes out."""
     cases = replay_cases(ctx, wide=prop == "C24")
+    if prop == "C24":
+        # without assertions the unused bindings become bare expression statements (`var_0.total`)
+        cases = cases + [dict(c, assertions=False) for c in cases[: len(cases) // 2]]
     if prop == "C18":
         cases = cases + [dict(c, roundtrip=False) for c in replay_cases(ctx, wide=True)[:150]]
         # assertions filtered irregularly, as the mutation-analysis based generation does
